@@ -43,7 +43,7 @@ def main():
             os.makedirs(os.path.dirname(f'{scratch}/{r}'), exist_ok=True)
             shutil.copy(p, f'{scratch}/{r}')
         pkgs = sorted({'./' + os.path.dirname(r) + '/' for r in demo_rel})
-        democmd = ['go', 'test', '-vet=off', '-count=1', '-run', 'Verif|Demo', '-timeout', '120s'] + pkgs
+        democmd = ['flock', '/tmp/go-mqtt-test.lock', 'go', 'test', '-vet=off', '-count=1', '-run', 'Verif|Demo', '-timeout', '120s'] + pkgs
         if not pkgs and os.path.isdir(f'{scratch}/demo'):
             democmd = ['go', 'run', './demo']
         r0 = run(democmd, cwd=scratch)
@@ -60,7 +60,7 @@ def main():
             os.remove(f'{scratch}/{r}')
         ok = False
         for attempt in range(3):
-            t = run('go test -json -vet=off -count=1 -timeout 25m ./... 2>/dev/null', cwd=scratch, timeout=1800)
+            t = run('flock /tmp/go-mqtt-test.lock go test -json -vet=off -count=1 -timeout 25m ./... 2>/dev/null', cwd=scratch, timeout=1800)
             passed = set()
             for l in t.stdout.splitlines():
                 try:
